@@ -950,3 +950,32 @@ def r21_raw_rasterisers_consult_the_clip(ck, P, rid='C03-R17'):
             ck.violation(R, f.name, 'rasterises into %s without consulting its clip' % f.params[k][0], '%s hands its image parameter %s to %s (%s) on a path that has not looked at the image\'s clip region: the shape is rasterised into every row and column of the image it covers, also outside the destination clip (and into the image\'s own bits when it has an alpha map)' % (f.name, f.params[k][0], g.name, c.loc()), c.loc())
     if n == 0:
         raise AnalysisBroken('%s: no exported caller of the edge rasteriser found' % rid)
+
+
+def r22_flush_covers_the_saved_span(ck, P, rid='C12-R21'):
+    """Typestate of the deferred span of the a8 rasteriser (fill_start, fill_end, fill_size): whatever is written out with the saved row
+    count belongs to the *saved* span - all of it, its part left of the new span, or its part right of it.  The interval written
+    therefore has at least one end at a saved bound; an interval made of the new span's ends only (the bounds were replaced before the
+    write-out) puts the pending coverage where the new span is and loses it where the old one was."""
+    R = ck.rule(rid, 'in the a8 edge rasteriser (both builds) every write-out whose value multiplies the saved row count fill_size has a length of the form saved bound minus something or something minus saved bound (fill_end - fill_start, lxi - fill_start, fill_end - rxi): never a difference of the current span\'s ends alone', floor=6)
+    n = 0
+    for f in P.functions():
+        if f.unit.name not in ('pixman-edge.c', 'pixman-edge-accessors.c'):
+            continue
+        saved = {x.i for x in f.insts() if x.dv in ('fill_start', 'fill_end')}
+        counts = {x.i for x in f.insts() if x.dv == 'fill_size'}
+        if not saved or not counts:
+            continue
+        for m in f.insts():
+            if m.op not in ('mul', 'shl') or not any(a[0] == 'v' and a[1] in counts for a in m.a):
+                continue
+            subs = [q for q in f.blocks[m.bb.id].insts if q.op == 'sub' and q.ty == 'i32' and not any(a[0] == 'c' for a in q.a)]
+            for q in subs:
+                n += 1; ck.saw(f)
+                where = '%s (%s): write-out at %s' % (f.name, f.unit.name, q.loc())
+                if any(a[0] == 'v' and a[1] in saved for a in q.a):
+                    ck.ok(R, where, 'anchored at a saved bound')
+                else:
+                    ck.violation(R, f.name, 'write-out of the saved rows over the new span (%s)' % f.unit.name, '%s writes out fill_size rows of pending coverage over an interval whose length (%s) is computed from the current span alone: the saved bounds were replaced before the write-out, so the coverage collected for the old span is added where the new span lies and never where it belongs - a8 coverage is no longer the count of covered samples' % (f.name, q.loc()), q.loc())
+    if n == 0:
+        raise AnalysisBroken('%s: no write-out of the deferred span found' % rid)
